@@ -381,7 +381,13 @@ class Parser:
                 return self._parse_expr(e.operand)
             case ast.USub():
                 arg = self._parse_expr(e.operand)
-                if isinstance(arg, RationalVal) and arg.as_rational() == 0:
+                if (
+                    isinstance(arg, RationalVal)
+                    and arg.as_rational() == 0
+                    # ... unless it is that folded `-0.0` itself: negating it
+                    # again is an ordinary `Neg`, which gives `+0`
+                    and not (isinstance(arg, Decnum) and arg.val.lstrip().startswith('-'))
+                ):
                     # Negating a zero literal yields negative zero, a signed
                     # literal — fold it here so the sign survives regardless of
                     # context (a `Neg` under REAL loses it). See `as_real`.
